@@ -69,3 +69,19 @@ Print pf_mono.
 Definition n_wf := Eval vm_compute in
   count_true (fun c : c_tx => let '(T, ins, outs, pre, (ohs, ocs, ooh), osg) := c in wf_case T ins outs) cases_tx.
 Print n_wf.
+(* node level, first clause of the property: every transaction of every block the
+   node STORED creates no coin hours (PARTIAL form, as the theorem states it) and
+   no coins; nothing is stored that was not offered *)
+Definition pf_chain := Eval vm_compute in
+  failing (fun c : (bool * Z * list (list uxin * list txout * bool) * Z)%type => let '(arb, T, txs, extra) := c in
+    (extra =? 0) &&
+    forallb (fun t : list uxin * list txout * bool => let '(ins, outs, stored) := t in
+      negb stored || negb (wf_case T ins outs) ||
+      (forallb (acc_mid_ok T) ins && (in_eff_sum T ins <? 2 ^ 64) && not_created_partial T ins outs && coins_ok ins outs)) txs) cases_chain.
+Print pf_chain.
+(* the hours held by the unspent set, valued at the previous head time (a new
+   output counts its initial hours), never grow when a block is accepted *)
+Definition pf_supply := Eval vm_compute in
+  failing (fun c : (Z * list uxin * list uxin)%type => let '(T, before, after) := c in
+    in_eff_sum T after <=? in_eff_sum T before) cases_supply.
+Print pf_supply.
